@@ -54,7 +54,10 @@ def canon_tag(t):
         v = sx.canon(t.value)
     except Exception:  # noqa
         v = ("unrenderable",)
-    return (t.tag, v, t.type, t.error)
+    err = t.error
+    if isinstance(err, str) and err.startswith("Failed to parse reply"):
+        err = "Failed to parse reply"          # the exception text behind it is not modelled
+    return (t.tag, v, t.type, err)
 
 
 def parse_sd_result(out):
@@ -512,6 +515,10 @@ def run_altered(ctx, model, n=None):
                 bad = bytearray(healthy[k])
                 bad[58] = rng.choice([0x10, 0x50, 0xF0, 0x01])
                 what, bad = "pccc sts %#x" % bad[58], bytes(bad)
+            elif rng.random() < 0.25 and len(healthy[k]) > 58:
+                bad = bytearray(healthy[k])
+                bad[48] = rng.choice([1, 4, 5, 8, 0x1E, 0xFF])
+                what, bad = "status %#x with the body intact" % bad[48], bytes(bad)
             else:
                 what, bad = alter_reply(rng, healthy[k])
             scripted = list(healthy)
@@ -531,6 +538,12 @@ def run_altered(ctx, model, n=None):
             if impl["result"][0] == "raise" and (str(impl["result"][1]).startswith("foreign") or impl["result"][1] == "hang"):
                 ctx.violation("slc-public-call-raises-foreign:%s" % str(impl["result"][1]).split(":")[-1],
                               {k_: v_ for k_, v_ in case.items() if k_ != "config"}, "%s raised %s" % (kind, impl["result"][1]))
+            # C13: a reply whose own status words report a failure never yields a successful Tag, whatever the PCCC part says
+            if impl["result"][0] == "tags" and (what.startswith("encapsulation") or what.startswith("status ")) and k < len(impl["result"][1]):
+                t = impl["result"][1][k]
+                if t[1] is not None and t[1] != ("NoneType", None) and t[3] is None:
+                    ctx.violation("slc-bad-status-reply-reported-as-success", {k_: v_ for k_, v_ in case.items() if k_ != "config"},
+                                  "reply %d carried %s, the Tag is %r" % (k, what, t))
             if impl["result"] != mod["result"] or impl["frames"] != mod["frames"]:
                 ctx.mismatch(stream, dict(case, model_line=line[:2000]), str(impl["result"])[:400] + " frames=%d" % len(impl["frames"]),
                              str(mod["result"])[:400] + " frames=%d" % len(mod["frames"]))
